@@ -267,6 +267,31 @@ fn mapping_f64(d: &mut Draw) -> Outcome {
     let pr = planar(Rad(pf), a, h, pn, pfar);
     let big = pr.rm().map(|x| x.abs()).e.iter().flatten().fold(0.0f64, |m, x| m.max(*x));
     ensure!(pd.rm().max_abs_diff(&pr.rm()) <= 1e-9 * (1.0 + big), "planar-deg", "planar(Deg) differs from planar(Rad)");
+    // a very deep volume: near tiny and far huge, the window in proportion to near - every entry of the matrix is still an
+    // ordinary number (2n/(r-l), (f+n)/(f-n) ~ 1, 2fn/(f-n) ~ 2n) although f/n exceeds the range of the scalar type
+    {
+        let dn = d.f64_log(1e-170, 1e-150);
+        let df = d.f64_log(1e130, 1e150);
+        let (dl, db) = (-dn * d.f64_in(0.2, 2.0), -dn * d.f64_in(0.2, 2.0));
+        let (dr, dt) = (dn * d.f64_in(0.2, 2.0), dn * d.f64_in(0.2, 2.0));
+        d.note("deep frustum l,r,b,t,n,f", &(dl, dr, db, dt, dn, df));
+        let m = cgmath::frustum(dl, dr, db, dt, dn, df);
+        for (xi, sx) in [(dl, -1.0), (dr, 1.0)] {
+            for (yi, sy) in [(db, -1.0), (dt, 1.0)] {
+                vcore::tryo!(expect_corner(&m, (xi, yi, -dn), (sx, sy, -1.0), 1e-9, "frustum-deep-near-corner", "frustum of a very deep volume (near plane)"));
+            }
+        }
+        let c = m * Vector4::new(0.0, 0.0, -df, 1.0);
+        ensure!((c.z / c.w - 1.0).abs() <= 1e-9, "frustum-deep-far-plane", "frustum of a very deep volume: the far plane maps to z = {:e}", c.z / c.w);
+        let pm = cgmath::perspective(Rad(fovy), a, dn, df);
+        let c = pm * Vector4::new(0.0, 0.0, -dn, 1.0);
+        ensure!((c.z / c.w + 1.0).abs() <= 1e-9, "perspective-deep-near-plane", "perspective of a very deep volume: the near plane maps to z = {:e}", c.z / c.w);
+        // the same in f32, where "very deep" starts at a far/near ratio of 1e38
+        let (fnr, ffr) = (d.f64_log(1e-26, 1e-22) as f32, d.f64_log(1e18, 1e22) as f32);
+        let m32 = cgmath::frustum(-fnr, 2.0 * fnr, -1.5 * fnr, fnr, fnr, ffr);
+        let c = m32 * Vector4::new(-fnr, fnr, -fnr, 1.0);
+        ensure!(((c.x / c.w + 1.0).abs() as f64) <= 1e-5 && ((c.y / c.w - 1.0).abs() as f64) <= 1e-5 && ((c.z / c.w + 1.0).abs() as f64) <= 1e-5, "frustum-deep-near-corner-f32", "frustum::<f32> of a very deep volume (near = {:e}, far = {:e}): near corner maps to ({:e}, {:e}, {:e})", fnr, ffr, c.x / c.w, c.y / c.w, c.z / c.w);
+    }
     // scale covariance: the same volume measured in units 2^k times smaller is a valid tuple too, and
     // M_s * diag(s,s,s,1) must be M up to the common homogeneous factor (1 or s); powers of two make
     // every intermediate result scale exactly, so the allowance is a few ulps per entry
@@ -454,7 +479,7 @@ pub fn property() -> Property {
     add!("frustum-Q", "Q", frustum_exact, 3000, 200_000, 40, &[("off-centre", 300)], "every valid tuple (l<r, b<t, 0<n<f)");
     add!("perspective-Q", "Q", perspective_exact, 3000, 200_000, 32, &[("ordinary", 200), ("negative-aspect", 50), ("far<near", 20)], "every valid tuple");
     add!("planar-Q", "Q", planar_exact, 3000, 200_000, 40, &[("focal-behind", 200), ("focal-in-front", 100)], "every valid tuple");
-    add!("mapping-f64", "f64", mapping_f64, 6000, 300_000, 80, &[("planar-orthographic", 100), ("planar-focal-behind", 100), ("planar-focal-in-front", 100)], "every valid tuple");
+    add!("mapping-f64", "f64", mapping_f64, 6000, 300_000, 112, &[("planar-orthographic", 100), ("planar-focal-behind", 100), ("planar-focal-in-front", 100)], "every valid tuple");
     const REJ: &[(&str, u32)] = &[
         ("perspective-fovy<=0", 20), ("perspective-fovy>=pi", 20), ("perspective-aspect=0", 20), ("perspective-near<=0", 20), ("perspective-far<=0", 20), ("perspective-near=far", 20),
         ("frustum-left>right", 20), ("frustum-bottom>top", 20), ("frustum-near>far", 20),
